@@ -305,7 +305,9 @@ MANIFEST = {
     "level_note": ("Assumptions: ERC20s of ERC20-born mappings are 'conservative' (balances move only via transfer/burn by the "
                    "holder, sender debited exactly the amount; rebasing / owner-mint / lying balanceOf are outside the "
                    "statement, as 'standard tokens' in the property); the module account never originates calls; no other "
-                   "module mints a mapped erc20/ denom; Atomicity of reverted frames is a "
+                   "module mints a mapped erc20/ denom; the gas coin unibi is a modelled, mappable denom and the burned CreateFunToken "
+                   "fee is modelled, but gas payments are not (gas payers' unibi balances are not compared, unibi supply is "
+                   "compared relative to the rest of genesis). Atomicity of reverted frames is a "
                    "definition in the model (C04 carries the theorem) and is CHECKED against the implementation on sub-frame "
                    "reverts, top-level reverts, swallowed failures and out-of-gas. No generated facts (nothing "
                    "configuration-like). Trusted: Coq kernel + vm_compute, the Go driver and its canonicalisation, two "
